@@ -1,7 +1,7 @@
 import CryoCat.Drv.Proto
 import CryoCat.Model.C09
 /-! Driver of C09: executes `oob / oobAsIs / oobCode`, `trim / trimCode`, `cleanPoints`,
-`cleanMask / cleanMaskCode / cleanMaskOld` of `Model/C09.lean` at `Rat`.
+`cleanMaskStmt / cleanMask / cleanMaskCode / cleanMaskById / cleanMaskOld` of `Model/C09.lean` at `Rat`.
 All numbers travel as integers `n` meaning `n / scale` (`scale` a power of two); results are
 `[numerator, denominator]` pairs of normalised rationals. -/
 namespace CryoCat.Drv.C09
@@ -49,15 +49,21 @@ def ptOf (scale : Nat) (l : List Int) : Option (Pt Rat) :=
   | [t, a, b, c] => some ⟨q scale t, ⟨q scale a, q scale b, q scale c⟩⟩
   | _ => none
 
-/-- a mask from its shape and its voxels in C order (`[x][y][z]`, z fastest); 1 = non-zero -/
-def maskOf (j : Json) : Option Mask :=
-  match getArr? j "shape" >>= ints, getArr? j "data" >>= ints with
+/-- a mask from its shape and its voxels in C order (`[x][y][z]`, z fastest). The voxel VALUES handed to the
+library travel as `raw` (integers meaning `n / scale`); without `raw`, `data` holds the values 0 / 1. The mask is
+binarised with `cfg` (`cryomap.binarize`): documented operator for `spec`, today's source for `code`. -/
+def maskOf (cfg : BinarizeCfg) (scale : Nat) (j : Json) : Option Mask :=
+  let vals : Option (List Rat) :=
+    match getArr? j "raw" >>= ints with
+    | some raw => some (raw.map (q scale))
+    | none => (getArr? j "data" >>= ints).map (fun (ds : List Int) => ds.map (fun (n : Int) => (n : Rat)))
+  match getArr? j "shape" >>= ints, vals with
   | some [sx, sy, sz], some data =>
-    let arr := data.toArray
+    let arr := (data.map (binarizeWith cfg)).toArray
     let sy' := sy.toNat
     let sz' := sz.toNat
     some { sx := sx.toNat, sy := sy', sz := sz',
-           val := fun ix iy iz => (arr.getD ((ix * sy' + iy) * sz' + iz) 1) != 0 }
+           val := fun ix iy iz => arr.getD ((ix * sy' + iy) * sz' + iz) true }
   | _, _ => none
 
 def btOf (s : String) : BType :=
@@ -90,20 +96,25 @@ def handle (j : Json) : Json :=
           Json.mkObj [("spec", out), ("code", out)]
         | _, _ => err "bad-args"
       | "mask" =>
-        match getArr? j "tomos" >>= ints, (getArr? j "masks").bind (·.toList.mapM maskOf) with
-        | some tomos, some masks =>
+        match getArr? j "tomos" >>= ints, (getArr? j "masks").bind (·.toList.mapM (maskOf binarizeCfgDoc scale)),
+              (getArr? j "masks").bind (·.toList.mapM (maskOf Gen.C09.binarizeCfg scale)) with
+        | some tomos, some masks, some masksCode =>
           let ts := tomos.map (q scale)
           let single := (j.getObjValAs? Bool "single").toOption.getD false
           match single, masks with
           | true, [] => err "bad-args"
           | _, _ =>
-            let arg : MaskArg := match single, masks with
+            let mk (ms : List Mask) : MaskArg := match single, ms with
               | true, m :: _ => .single m
               | _, ms => .perTomo ms
-            Json.mkObj [("spec", maskJson (cleanMask truncRat ts arg l)),
-                        ("code", maskJson (cleanMaskCode truncRat ts arg l)),
-                        ("old", maskJson (cleanMaskOld truncRat ts arg l))]
-        | _, _ => err "bad-args"
+            -- `spec` is the STATEMENT (filter by `¬ onZeroVoxel`, `cleanMaskStmt_spec`), `model` the documented code model,
+            -- `code` the model at today's operators, `byid` / `old` the two repaired defects (regression)
+            Json.mkObj [("spec", maskJson (cleanMaskStmt truncRat ts (mk masks) l)),
+                        ("model", maskJson (cleanMask truncRat ts (mk masks) l)),
+                        ("code", maskJson (cleanMaskCode truncRat ts (mk masksCode) l)),
+                        ("byid", maskJson (cleanMaskById truncRat ts (mk masks) l)),
+                        ("old", maskJson (cleanMaskOld truncRat ts (mk masks) l))]
+        | _, _, _ => err "bad-args"
       | _ => err "bad-op"
   | _, _, _ => err "bad-args"
 
